@@ -37,6 +37,12 @@ FIRST_MISSED = {  # caught only after the extension named here (recorded while t
  "C06-m5": "rm oracle: overlapping / repeated arguments must succeed too (the tolerance dated from the pinned tree)",
  "C08-m5": "confusable siblings that are DIRECTORIES (`lib/` next to `lib-old/`)",
  "C09-m6": "file names that are not valid UTF-8 (`r\\xe9sum\\xe9`, `\\xff`); replay files and driver made safe for such bytes",
+ "C13-m5": "directory names that END in the name of an ignore entry (`rebuild/` under a `build/` entry)",
+ "C13-m6": "`%` in file names",
+ "C14-m5": "`log -n` with values up to 2^63-1",
+ "C14-m6": "identity drawn from the whole name domain in the prelude of every scenario profile (was fixed to `Test User`); caught by C12 before",
+ "C17-m6": "`.goitignore` written with CRLF line ends and without a final newline",
+ "C18-m6": "`head@{0}` / `Head@{1}` and blank-padded positions in the reset arguments of the C18 grammar",
  "C10-m6": "the violation was found but could not be replayed (the step carried a commit id of the generating run): steps now name commits symbolically (`@commit#n`)",
 }
 print("### D.1 Changes written by independent sub-agents (`seeded/<ID>-mN/`)\n")
